@@ -31,6 +31,7 @@ def swarm(prop, r, tier):
     cfg["warn_error"] = R.chance(0.25)
     cfg["neg_source_rs"] = R.chance(0.04)
     cfg["zero_params"] = R.pick([0.0, 0.0, 0.08])
+    cfg["sparse"] = R.chance(0.3)
     # a random subset of kinds is disabled (swarm)
     kinds = list(KINDS)
     for k in R.sample(ALL_CHILD_KINDS, R.randint(0, 4)):
